@@ -2,6 +2,7 @@
 from engine import *
 import provenance
 import guards
+import arith
 import writes
 import mutations
 import accessors
@@ -528,3 +529,4 @@ def r11H(F, rid='11.H'):
 	return out
 
 RULES.append(('11.H', 'block_confirmed hands the OnchainTxHandler its own conf_height parameter as confirmation height and the best block height as current height (argument provenance by position)', r11H))
+RULES.append(('11.N', 'arithmetic census: per reviewed function the number of operations per (group: add/sub, mul, div, rem, shift, bit, min, max, div_ceil ...; flavour: plain / checked / saturating / wrapping) is unchanged - a dropped or added `+ 1`, a rounding direction, saturating for checked, min for max (rules/arith.py; value arithmetic itself is not decided)', lambda F: arith.for_property(F, 'C11', '11.N')))
